@@ -14,6 +14,9 @@ GOENV = {
 }
 
 
+LOCKED_PKGS = {"coordinator"}
+
+
 class Infra(Exception):
     """The check itself is broken (build failure, timeout, dead driver...). Exit 2, never a violation."""
 
@@ -234,6 +237,13 @@ class Ctx:
         cmd += ["./" + pkg]
         if args:
             cmd += ["-args"] + args
+        # The repository's own coordinator tests bind 127.0.0.1:7777 in an init(); two test binaries of that
+        # package cannot run at the same time on one machine.  Serialise them across all checks.
+        lockf = None
+        if pkg in LOCKED_PKGS or any(k in LOCKED_PKGS for k in (extra_pkgs or {})):
+            import fcntl
+            lockf = open("/tmp/verif-gotest-%s.lock" % pkg.replace("/", "_"), "w")
+            fcntl.flock(lockf, fcntl.LOCK_EX)
         t = time.time()
         try:
             p = subprocess.run(cmd, cwd=self.repo, env=e, stdout=subprocess.PIPE, stderr=subprocess.STDOUT,
@@ -242,6 +252,9 @@ class Ctx:
             rc = p.returncode
         except subprocess.TimeoutExpired as ex:
             raise Infra("go test outer timeout: %s" % " ".join(cmd))
+        finally:
+            if lockf is not None:
+                lockf.close()
         wall = time.time() - t
         recs = []
         if os.path.exists(outp):
